@@ -199,6 +199,17 @@ def main(argv):
             os.environ["TRAFFIC_WEAVER_DATA"] = home
             results.append(res)
             continue
+        if op == "descriptions":      # the shipped description tables through their public accessors
+            out_d = {}
+            for fn in ("sandvine_dataset_description", "mix_it_dataset_description", "ams_ix_dataset_description",
+                       "ix_br_dataset_description"):
+                try:
+                    out_d[fn] = getattr(ds, fn)()
+                except BaseException as e:
+                    out_d[fn] = {"error": type(e).__name__ + ": " + str(e)[:200]}
+            res["descriptions"] = out_d
+            results.append(res)
+            continue
         if op == "listing":
             res["listing"] = listing(home)
             results.append(res)
